@@ -5,14 +5,14 @@ CONFIG = {
     "C02": {"timeout_s": {"quick": 900, "thorough": 7200}},
     "C03": {"floatlog": True, "timeout_s": {"quick": 900, "thorough": 7200}},
     "C04": {"features": "std,zoo", "floatlog": True, "timeout_s": {"quick": 900, "thorough": 14400}},
-    "C05": {"profiles": ["release", "chk"], "sanitizers": True, "timeout_s": {"quick": 900, "thorough": 7200}},
+    "C05": {"profiles": ["release", "chk"], "sanitizers": True, "fuzz": True, "timeout_s": {"quick": 900, "thorough": 7200}},
     "C06": {"timeout_s": {"quick": 900, "thorough": 7200}},
-    "C07": {"timeout_s": {"quick": 900, "thorough": 7200}},
+    "C07": {"fuzz": True, "timeout_s": {"quick": 900, "thorough": 7200}},
     "C08": {"timeout_s": {"quick": 900, "thorough": 7200}},
     "C09": {"timeout_s": {"quick": 900, "thorough": 7200}},
     "C10": {"timeout_s": {"quick": 900, "thorough": 7200}},
     "C11": {"timeout_s": {"quick": 900, "thorough": 7200}},
-    "C12": {"timeout_s": {"quick": 900, "thorough": 7200}},
+    "C12": {"fuzz": True, "timeout_s": {"quick": 900, "thorough": 7200}},
     "C13": {"nostd": True, "timeout_s": {"quick": 900, "thorough": 7200}},
     "C14": {"external": "c14"},
 }
